@@ -324,7 +324,7 @@ func (c *regexpSimplifyChecker) simplifyCharClass(e syntax.Expr) string {
 		switch e.Args[0].Op {
 		case syntax.OpChar:
 			switch v := e.Args[0].Value; v {
-			case "|", "*", "+", "?", ".", "[", "^", "$", "(", ")":
+			case "|", "*", "+", "?", ".", "[", "^", "$", "(", ")", "{", "}", ",":
 				// Can't take outside of the char group without escaping.
 			default:
 				return v
